@@ -1440,37 +1440,6 @@ where
     V: Clone + Send + Sync + 'static,
     S: BuildHasher + Clone + Send + Sync + 'static,
 {
-    /// The lookup part of `get_with_hash` (same tests, same clock reading), returning the
-    /// read operation instead of recording it.
-    pub(crate) fn verif_get_phase(
-        &self,
-        key: &K,
-        hash: u64,
-    ) -> (Option<V>, crate::verif::PendingRead<K, V>) {
-        let now = self.inner.current_time_from_expiration_clock();
-        match self.inner.get(key) {
-            None => (None, crate::verif::PendingRead(ReadOp::Miss(hash))),
-            Some(entry) => {
-                let i = &self.inner;
-                let (ttl, tti, va) = (&i.time_to_live(), &i.time_to_idle(), &i.valid_after());
-                let arc_entry = &*entry;
-                if is_expired_entry_wo(ttl, va, arc_entry, now)
-                    || is_expired_entry_ao(tti, va, arc_entry, now)
-                {
-                    (None, crate::verif::PendingRead(ReadOp::Miss(hash)))
-                } else {
-                    let v = arc_entry.value.clone();
-                    let e = TrioArc::clone(arc_entry);
-                    (Some(v), crate::verif::PendingRead(ReadOp::Hit(hash, e, now)))
-                }
-            }
-        }
-    }
-
-    pub(crate) fn verif_send_read(&self, p: crate::verif::PendingRead<K, V>) {
-        let _ = self.read_op_ch.try_send(p.0);
-    }
-
     pub(crate) fn verif_set_clock(&self, clock: &crate::verif::VerifClock) {
         {
             let mut exp_clock = self.inner.expiration_clock.write().expect("lock poisoned");
@@ -1583,5 +1552,45 @@ where
             hk_running,
             hk_sync_after,
         }
+    }
+}
+
+// Phase-split hooks (see sync/cache.rs).
+#[cfg(all(mini_moka_verif, mini_moka_verif_phase))]
+impl<K, V, S> BaseCache<K, V, S>
+where
+    K: Hash + Eq + Send + Sync + 'static,
+    V: Clone + Send + Sync + 'static,
+    S: BuildHasher + Clone + Send + Sync + 'static,
+{
+    /// The lookup part of `get_with_hash` (same tests, same clock reading), returning the
+    /// read operation instead of recording it.
+    pub(crate) fn verif_get_phase(
+        &self,
+        key: &K,
+        hash: u64,
+    ) -> (Option<V>, crate::verif::PendingRead<K, V>) {
+        let now = self.inner.current_time_from_expiration_clock();
+        match self.inner.get(key) {
+            None => (None, crate::verif::PendingRead(ReadOp::Miss(hash))),
+            Some(entry) => {
+                let i = &self.inner;
+                let (ttl, tti, va) = (&i.time_to_live(), &i.time_to_idle(), &i.valid_after());
+                let arc_entry = &*entry;
+                if is_expired_entry_wo(ttl, va, arc_entry, now)
+                    || is_expired_entry_ao(tti, va, arc_entry, now)
+                {
+                    (None, crate::verif::PendingRead(ReadOp::Miss(hash)))
+                } else {
+                    let v = arc_entry.value.clone();
+                    let e = TrioArc::clone(arc_entry);
+                    (Some(v), crate::verif::PendingRead(ReadOp::Hit(hash, e, now)))
+                }
+            }
+        }
+    }
+
+    pub(crate) fn verif_send_read(&self, p: crate::verif::PendingRead<K, V>) {
+        let _ = self.read_op_ch.try_send(p.0);
     }
 }
